@@ -136,8 +136,9 @@ def bucket_of(fail):
 
 
 def run_shard(args):
-    prop_id, tier, seed, shard, nshards, examples, deadline_ts = args
+    prop_id, tier, seed, shard, nshards, examples, wall_budget = args
     core.setup_imports()
+    deadline_ts = time.time() + wall_budget      # counted from the moment this shard is ready to generate
     import hypothesis
     from hypothesis import HealthCheck, Phase, given, settings
     prop = load_prop(prop_id)
@@ -354,8 +355,8 @@ def main(argv=None):
         nshards = ns.shards or budget.get("shards", 1)
         examples = ns.examples if ns.examples is not None else budget["examples"]
         per = -(-examples // nshards)
-        deadline_ts = t0 + budget.get("wall_budget", 3600)
-        jobs = [(prop_id, ns.tier, seed, s, nshards, per, deadline_ts) for s in range(nshards)]
+        wall_budget = budget.get("wall_budget", 3600)
+        jobs = [(prop_id, ns.tier, seed, s, nshards, per, wall_budget) for s in range(nshards)]
         if nshards == 1:
             results = [run_shard(jobs[0])]
         else:
@@ -394,6 +395,9 @@ def main(argv=None):
               f"timeouts={stats.timeouts} wall={wall:.1f}s")
         if nviol:
             return 1
+        if stats.evaluations == 0:
+            print("HARNESS-ERROR: no case was evaluated (machine overloaded or generator broken)")
+            return 2
         if len(stats.nontrivial) < min_nt and not stats.stopped_early:
             print(f"HARNESS-ERROR: only {len(stats.nontrivial)} non-trivial cases (<{min_nt}): generator is vacuous")
             return 2
